@@ -423,6 +423,14 @@ fn init_history(init: &str) -> Vec<crate::sut::SymOp> {
     match init {
         "unknown" => vec![],
         "empty" => vec![],
+        // three versions, snapshot at the first: both the latest and the one before it are
+        // acceptable for a new snapshot, so two AddSnapshot requests genuinely compete
+        "chain3+snapshot" => vec![
+            SymOp::AddVersion { c: 0, parent: NIL, data: b"v1".to_vec() },
+            SymOp::AddSnapshot { c: 0, v: 1, data: b"snap1".to_vec() },
+            SymOp::AddVersion { c: 0, parent: 1, data: b"v2".to_vec() },
+            SymOp::AddVersion { c: 0, parent: 2, data: b"v3".to_vec() },
+        ],
         _ => vec![
             SymOp::AddVersion { c: 0, parent: NIL, data: b"v1".to_vec() },
             SymOp::AddSnapshot { c: 0, v: 1, data: b"snap1".to_vec() },
@@ -469,7 +477,8 @@ fn concretize(kind: RKind, model: &Model, tab: &mut SymTab, seed: u64, thread: u
     let c = client_uuid(seed, cid);
     let cl = model.client(cid);
     let latest = cl.map(|c| c.latest()).unwrap_or(NIL);
-    let first = cl.and_then(|c| c.chain.first().map(|v| v.id));
+    // "older": the version before the latest one
+    let first = cl.and_then(|c| if c.chain.len() >= 2 { Some(c.chain[c.chain.len() - 2].id) } else { c.chain.first().map(|v| v.id) });
     let payload = format!("t{thread}r{idx}").into_bytes();
     match kind {
         RKind::AvLatest => Req::AddVersion { c, parent: tab.uuid(latest), data: payload },
